@@ -587,7 +587,7 @@ Fixpoint parseExprWrap (c : cfg) (fuel : nat) (e : expr) : M (val * bool) :=
 
 (* ---- top level: newParser + parse ---- *)
 Definition init_state (c : cfg) : pstate :=
-  mkPstate (save0 (cData c)) (mkPos 0 0 0) [] [] [] [] [] [] []
+  mkPstate (save0 (cData c)) (mkPos 0 0 0) [] (o_initstate (cO c)) [] [] [] [] []
            (mkPos 1 1 0) [] false 0%N [] [] [].
 
 Inductive outcome :=
